@@ -206,4 +206,39 @@ def Flow.andThen {σ α ρ : Type} (f : Flow σ α ρ) (k : α → Bool) : Bool 
   | .next a => k a
   | .exit _ => true
 
+/-! ### output strings (phase 4 of tools/x2l_st.py)
+
+A `std::string& result` parameter (or a `std::back_insert_iterator<std::string>` passed by value, or a local
+`std::string`) that the translated function only APPENDS to is an output byte list, versioned like a local; the
+parameter is part of the state σ of the `Outcome` (σ = `Int × Buf` = cursor cell and string, `Buf` when there is no
+cursor cell).  Nothing but `size()` / `empty()` may read it. -/
+
+/-- the byte a `char` value is stored as -/
+def byteOf (x : Int) : UInt8 := UInt8.ofNat (x % 256).toNat
+
+/-- `result += c`, `result.push_back(c)`, `*out++ = c` -/
+def push (out : Buf) (c : Int) : Buf := out ++ [byteOf c]
+
+/-- the bytes `[first, last)` of the input array (`result.append(first, last)`, `result.append(p, n)`) -/
+def slice (b : Buf) (first last : Int) : Buf := (b.drop first.toNat).take (last.toNat - first.toNat)
+
+/-- the range `[first, last)` lies inside the array -/
+def sliceOk (b : Buf) (first last : Int) : Bool := decide (0 ≤ first) && decide (first ≤ last) && decide (last ≤ (b.length : Int))
+
+/-- sequencing after a call whose state τ (cursor cell and / or output string of the CALLEE) is bound to variables of the
+    caller (`&local` as the callee's cursor cell, an output string handed on): `k` receives the callee's final state,
+    `put` says what the caller's state is when the callee throws -/
+def Outcome.bindVia {τ σ α β : Type} (o : Outcome τ α) (put : τ → σ) (k : τ → α → Outcome σ β) : Outcome σ β :=
+  match o with
+  | .normal t r => k t r
+  | .thrown e t => .thrown e (put t)
+  | .nofuel => .nofuel
+
+/-- the same inside a branch / loop body -/
+def Flow.callVia {τ σ α β ρ : Type} (o : Outcome τ α) (put : τ → σ) (k : τ → α → Flow σ β ρ) : Flow σ β ρ :=
+  match o with
+  | .normal t r => k t r
+  | .thrown e t => .exit (.thrown e (put t))
+  | .nofuel => .exit .nofuel
+
 end Osmium.CxxSem
